@@ -380,6 +380,7 @@ def fs_enum_cases(rng, n):
     for i in range(n):
         lines, dirs, files, lnks = enum_tree(rng)
         c = ['@fs'] + sentinel() + lines
+        opened = []                                  # every text a Directory object of this case was opened with
 
         def where():
             r = rng.random()
@@ -398,12 +399,12 @@ def fs_enum_cases(rng, n):
                 # the object protocol: open twice, read past the end, open at the end, close, read closed, reuse
                 o = rng.randrange(4)
                 w = where()
+                opened.append(w)
                 c.append('dopen %d %s %s %d' % (o, H(w), H(rng.choice(PATTERNS)), rng.randrange(2)))
-                w2 = ''
                 if rng.random() < 0.4:
-                    w2 = where()
-                    c.append('dopen %d %s %s 0' % (o, H(w2), H('')))
-                if rng.random() < 0.4 and not w.startswith('../out') and not w2.startswith('../out'):
+                    opened.append(where())
+                    c.append('dopen %d %s %s 0' % (o, H(opened[-1]), H('')))
+                if rng.random() < 0.4 and not any(x.startswith('../out') for x in opened):
                     # what a link leads to changes between open and read (the directory that is being
                     # enumerated is left alone: what readdir makes of a change is the kernel's business)
                     c.append(rng.choice(['mkd ' + H('../out/t'), 'mkf %s %s' % (H('../out/t'), H(b'x'))]))
@@ -411,13 +412,15 @@ def fs_enum_cases(rng, n):
                 if rng.random() < 0.5:
                     c.append('dreadall %d' % o)
                 if rng.random() < 0.4:
-                    c.append('dopen %d %s %s 0' % (o, H(where()), H('*')))
+                    opened.append(where())
+                    c.append('dopen %d %s %s 0' % (o, H(opened[-1]), H('*')))
                 if rng.random() < 0.7:
                     c.append('dclose %d' % o)
                     if rng.random() < 0.5:
                         c.append('dreadall %d' % o)
                     if rng.random() < 0.5:
-                        c += ['dopen %d %s %s %d' % (o, H(where()), H(rng.choice(PATTERNS)), rng.randrange(2)), 'dreadall %d' % o]
+                        opened.append(where())
+                        c += ['dopen %d %s %s %d' % (o, H(opened[-1]), H(rng.choice(PATTERNS)), rng.randrange(2)), 'dreadall %d' % o]
         cases.append(c)
     return cases
 
